@@ -440,7 +440,10 @@ BOUNDARY = ["\\", "a\\", "\\u", "\\u1", "\\u12", "\\u123", "\\u1234", "\\u12345"
             "\\x41", "\\a", "\\0", "\\'", "\\\"", "\\$", "\\u00e9\\", "\x07", "a\x00b", "\\uD83D\\uDE00\\uD83D",
             "\\u0041\\u0042", "\\uFFFF", "\\uffff", "\\u0000", "\\t", "\\n", "\\r", "\\b", "\\f", "\\/", "\\\\",
             "x\\u00e9", "\\u00e9x", "xx\\u00e", "\\uD83D\\uDE00x", "x\\uD83D\\uDE0", "\\uD83D\\uDE0g",
-            "\\uD83D\\uDBFF", "\\uD83D\\uE000", "\\uDBFF\\uDC00", "\\uD800\\uDFFF", "\\uD7FF\\uDC00"]
+            "\\uD83D\\uDBFF", "\\uD83D\\uE000", "\\uDBFF\\uDC00", "\\uD800\\uDFFF", "\\uD7FF\\uDC00",
+            "\\uD800", "\\uDBFF", "\\uDFFF", "\\udfff", "\\ud800", "\\uD800\\uDBFF", "\\uD800\\uD7FF",
+            "\\uDC00\\uDC00", "\\uDFFFx", "x\\uD800", "\\uD800\\uDC0", "\\uDBFF\\uDFF", "\\u0009", "\\u0008x",
+            "\\u0007x", "\\u001f", "\\u007F", "\\u00Ff", "\\uAbCd", "\\ufffF"]
 
 
 def malformed(r: Any, valid: list[tuple[str, str]], n_rand: int) -> list[str]:
